@@ -106,10 +106,11 @@ func harnesses(r *fw.Run) []fw.HarnessSpec {
 		name     string
 		updaters [][]uint32 // per updater thread: the sequence of head seqnos it reports on the best connection
 		gaps     time.Duration
-		waiters  []uint32 // seqno each waiter waits for
-		cancel   bool     // a canceller thread cancels waiter 0
-		best0    bool     // a BestMasterchainClient caller on a head-0 connection
-		sw       bool     // a thread switches the best connection to conn 1 and reports a head there
+		waiters  []uint32        // seqno each waiter waits for
+		cancel   bool            // a canceller thread cancels waiter 0
+		best0    bool            // a BestMasterchainClient caller on a head-0 connection
+		sw       bool            // a thread switches the best connection to conn 1 and reports a head there
+		delays   []time.Duration // waiter i starts after delays[i]
 	}
 	scen := []scenario{
 		{name: "one-waiter-reached", updaters: [][]uint32{{1, 2, 3}}, waiters: []uint32{2}},
@@ -122,6 +123,8 @@ func harnesses(r *fw.Run) []fw.HarnessSpec {
 		{name: "best-switch", updaters: [][]uint32{{1, 2}}, waiters: []uint32{2}, sw: true},
 	}
 	scen = append(scen, scenario{name: "channel-filling", updaters: [][]uint32{{1, 2, 3, 4, 5, 6, 7, 8, 9, 10, 11, 12}}, waiters: []uint32{99}})
+	// a caller whose seqno is already reached comes and goes while the pool's first waiter is still pending
+	scen = append(scen, scenario{name: "satisfied-caller-next-to-pending-waiter", updaters: [][]uint32{{1, 5}}, gaps: 300 * time.Millisecond, waiters: []uint32{5, 1}, delays: []time.Duration{0, 400 * time.Millisecond}})
 	// more heads than the update channel holds, the waiter wants the last one: no notification may be lost
 	scen = append(scen, scenario{name: "channel-filling-last-head-wanted", updaters: [][]uint32{{1, 2, 3, 4, 5, 6, 7, 8, 9, 10, 11, 12}}, waiters: []uint32{12}})
 	if !r.Quick() {
@@ -129,7 +132,7 @@ func harnesses(r *fw.Run) []fw.HarnessSpec {
 	}
 	// deviation bound (delay-bounded scheduling: every departure from the deterministic base scheduler,
 	// every non-first ready select case and every timer-first deviation costs one)
-	bounds := map[string]int{"two-updaters-two-waiters": 2, "channel-filling": 2, "channel-filling-last-head-wanted": 2, "two-waiters-timeout": 2}
+	bounds := map[string]int{"two-updaters-two-waiters": 2, "channel-filling": 2, "channel-filling-last-head-wanted": 2, "two-waiters-timeout": 2, "satisfied-caller-next-to-pending-waiter": 2}
 	for _, modeB := range []bool{false, true} {
 		for _, sc := range scen {
 			modeB, sc := modeB, sc
@@ -167,6 +170,9 @@ func harnesses(r *fw.Run) []fw.HarnessSpec {
 						ctx, cancel := vctx.WithCancel(vctx.Background())
 						cancels = append(cancels, cancel)
 						s.GoClient(fmt.Sprintf("waiter%d", wi), func() {
+							if wi < len(sc.delays) && sc.delays[wi] > 0 {
+								vtimes.Sleep(sc.delays[wi])
+							}
 							start := s.Now()
 							err := p.WaitMasterchainSeqno(ctx, want, time.Second)
 							rec.waits = append(rec.waits, waitResult{wi, want, start, s.Now(), err, conns[0].MasterHead().Seqno})
